@@ -570,3 +570,27 @@ def propagate_font(rng):
            "fea": "", "lib": {"public.openTypeCategories": cats,
                               "com.github.googlei18n.ufo2ft.filters": [{"name": "propagateAnchors", "pre": True}]}}
     return {"ufo": ufo, "q": 1, "hasCats": True, "ligatureMarks": ncomp}
+
+
+def dotted_circle_font(rng):
+    """DottedCircle filter enabled through the UFO lib; a U+25CC glyph that lacks the anchor the marks attach to; several
+    bases whose fractional anchor coordinates average to a rounding TIE (x.5): how the average is accumulated must not
+    depend on the order in which the source font yields its glyphs (insertion order, alphabetical after a reload, a set)."""
+    # (sets whose exact mean is a tie and whose floating-point running sum depends on the order of addition)
+    ys = rng.choice([[604.9, 581.3, 414.3], [496.7, 210.6, 441.3, 203.4, 600.5], [1.3, 537.9, 89.3], [769.7, 106.2, 2.6, 304.9, 274.1],
+                     [257.3, 525.5, 205.8, 677.4], [49.9, 591.9, 352.7], [162.1, 779.5, 682.1, 190.5, 663.3]])
+    names = ["zeta", "alpha", "mid", "beta", "omega"][: len(ys)]
+    glyphs = {}
+    order = []
+    for n, y in zip(names, ys):
+        glyphs[n] = {"cs": [box()], "comps": [], "w": 600 * PS, "h": 0, "u": [0x61 + len(order)],
+                     "anchors": [{"n": "top", "x": 300 * PS, "y": int(round(y * PS)), "yf": y, "xf": 300.3 if n == "mid" else 300.0}]}
+        order.append(n)
+    glyphs["acutecomb"] = {"cs": [box(-80, 500, 60, 60)], "comps": [], "w": 0, "h": 0, "u": [0x301], "anchors": [{"n": "_top", "x": -50 * PS, "y": 480 * PS}]}
+    glyphs["uni25CC"] = {"cs": [box(50, 100, 300, 300)], "comps": [], "w": 600 * PS, "h": 0, "u": [0x25CC], "anchors": []}
+    order += ["acutecomb", "uni25CC"]
+    rng.shuffle(order)
+    ufo = {"glyphs": glyphs, "order": order, "glyphNames": order,
+           "info": {"unitsPerEm": 1000, "ascender": 800, "descender": -200, "familyName": "Dotted", "styleName": "Regular"},
+           "fea": "", "lib": {"com.github.googlei18n.ufo2ft.filters": [{"name": "dottedCircle", "pre": True}]}}
+    return {"ufo": ufo, "q": 1}
